@@ -32,6 +32,14 @@ checks = {
    technique="explicit-state enumeration of lock operation sequences + stateless model checking of concurrent lock requests (incl. both orders in one SQL batch) with a lease monitor",
    text="(i) Every sequence of <=3 (4 thorough) acquire/re-acquire/release/heartbeat operations over 2 resources, 2 executions, 2 processes, ttl {0,5}, with the clock stepping over the lease end and the expiry sweep placed anywhere; (ii) every interleaving of two clients with the sweep, one injected failure, and both orders inside one SQL batch. Transition monitor on locks (holder never changes in place; a row disappears only by its own execution's release or by a sweep at or after the lease end; lease fields change only by the same execution's acquire or its process's heartbeat; nothing but an acquire creates a row) and exact response oracle (each lock request is one transaction).",
    note="Argument domains as listed; serial-store trust as for C01."),
+ "C02": dict(engine=A, design="4/C02",
+   technique="differential stateless model checking: the reference set is computed by exploring ALL request-atomic schedules of the same real code, every concurrent schedule must be explained by it (brute-force linearizability check over <=3 overlapping requests)",
+   text="Per scenario (2 concurrent requests and selected triples in quick, all triples in thorough; promise, task, lock and schedule families on shared ids; two setup states each; the family's background sweep; a clock step onto the deadline / lease end; one injected failure whose request may or may not have taken effect): first all request-atomic schedules give the reference set of (order, instant per request, complete response vector including a read-back epilogue); then every concurrent schedule is accepted only if some reference element has the same full responses, an order consistent with real-time precedence and an instant inside every request's interval.",
+   note="The clock advances only while no client request is in flight (a request that straddles a tick carries a decision-time stamp; C04/C07/C09 treat straddling with explicit oracles). A defect that is also present in sequential execution is invisible to a differential oracle. One known finding (ClaimTask answers 201 with an already completed root promise)."),
+ "C10": dict(engine=A, design="4/C10",
+   technique="stateless model checking of the firing cycle against the cron library's occurrence sequence",
+   text="Every interleaving of the firing cycle (schedule batch size 1, 2, 100; several cycles) with create / delete / re-create (same and different idempotency key) of the schedule and a user creating an occurrence's promise id, with clock steps just before, onto and far past occurrences (jumps over up to 60 occurrences), one failure and one crash mid-cycle. At every commit: next run time advances by exactly one occurrence per firing, never early, together with the occurrence's promise (id = template expansion, timeout = occurrence + promise timeout, configured param and tags plus the two marker tags) in the same commit; nothing of a deleted schedule fires for an occurrence later than the deletion; the epilogue runs cycles to quiescence and every occurrence in (created_on, clock] must have its promise.",
+   note="robfig/cron (through util.Next) defines 'occurrence'. Templates limited to {{.id}} and {{.timestamp}}. The crash on schedules whose promises route to a receiver was repaired by a fix: commit."),
 }
 m = {
  "version": 1,
